@@ -283,7 +283,7 @@ func (v *fnVC) applyCall(in ssa.Instruction, ci calleeInfo, args []*T, st *State
 		}
 	}
 	mkEx := func(cur, old *State) *Ex {
-		x := &Ex{enc: e, w: v.w, vars: map[string]*T{}, lets: map[string]string{}, cur: cur, old: old}
+		x := &Ex{enc: e, w: v.w, vars: map[string]*T{}, lets: map[string]string{}, cur: cur, old: old, clos: v.root().closures}
 		if ci.fn != nil && ci.fn.Pkg != nil {
 			x.pkg = ci.fn.Pkg.Pkg
 		} else if ct.Pkg != "" {
